@@ -18,6 +18,12 @@ PROPS_MODULE = "AslProps.C04"
 DRIVER = "c04"
 SHRINK_KEEP_FIRST = 1          # every history starts with `reset` (tells the stateful python oracle that a new case begins)
 NS = 8
+RULE = ("cases = histories of 12..300 statements over 8 root Vars driven by a python shadow simulation (typed and Var-to-Var assignment "
+        "incl. own elements/properties and ancestors, auto-creating paths, <<, resize, removeAt, remove, clear, extend, clone, copy, drop, "
+        "constructors) interleaved with queries (dump, ==, toString, conversions, is/has/contains/length, rc), plus literal sweeps over "
+        "every string length 0..20/31/32/100 and numeric boundary, the INT/NUMBER/FLOAT x STRING/SSTRING equality lattice, growth across "
+        "capacities 3,6,12,...,400 with and without a second handle, nesting depth up to 40; non-trivial = distinct case of >= 5 lines "
+        "with a mutation and an observation")
 
 # ------------------------------------------------------------------ python simulation
 
@@ -1141,8 +1147,40 @@ KNOWN = [{
 TECHNIQUE = ("Lean 4 theorems about an executable reference-counted heap model of Var (induction on recursion fuel and on lists; "
              "invariants over every operation) + differential correspondence check against the real library under ASan/LSan "
              "+ independent python simulation with native reference semantics")
-LEVEL_TEXT = "filled in once the theorems are in place"
-LEVEL_NOTE = "filled in once the theorems are in place"
+LEVEL_TEXT = (
+    "Proved in Lean 4, for ALL inputs/heaps/histories, about the executable reference-counted heap model of Var that the driver runs "
+    "(lean/AslModel/Var.lean: tagged values, blocks {elements, capacity, rc} that move when they grow, every constructor, typed and "
+    "Var assignment, auto-creating operator[], <<, resize, removeAt, remove, clear, extend, clone, ==, toString): "
+    "(1) accessors_*: a Var built from int/unsigned/Long/double/float/bool/string reports that type and value (unsigned >= 2^31 -> "
+    "NUMBER, inline representation exactly below 8 bytes, same bytes and length on both sides of the boundary); "
+    "(2) eq_iff_content (+ eq_refl/eq_symm/eq_trans): v == w is true exactly when both denote the same abstract tree (numbers by value "
+    "across INT/NUMBER/FLOAT, strings by bytes across STRING/SSTRING, containers element-wise, NONE = NONE), hence an equivalence; "
+    "(3) history_safe_partial / history_never_touches_freed: for every history of guarded statements from the initial state in which "
+    "extend targets root variables (all other statements at any depth, incl. assigning a Var one of its own elements/properties and "
+    "type-changing assignment to shared Vars) the reference-count invariant holds in every reached state (each handle points to a live "
+    "block of its kind, rc = number of handles, rc > 0, objects sorted, no block contains itself) and no statement reads or releases a "
+    "released block, indexes outside an element array or finds a zero count; "
+    "(4) assign_spec_partial: in every state satisfying the invariant an executed p = q (q possibly inside p) leaves at p exactly the "
+    "source value, which denotes the same tree as before; (5) clone_deep_partial: clone() only appends blocks, denotes the same tree, and "
+    "denotes it in every later heap that keeps the appended blocks, whatever happens to everything the original reaches; "
+    "(6) var_shared_growth_counterexample: without the guard, Var c = a; a << ... leaves c with a released block (the known finding). "
+    "The model is tied to the current source on every run by the correspondence check (real library under ASan/LSan vs compiled model "
+    "vs an independent python simulation with native reference semantics) over generated histories."
+)
+LEVEL_NOTE = (
+    "Partial statements (full versions kept as `def ..._full : Prop` in lean/AslProps/C04.lean): history_safe_full (missing: extend with a "
+    "nested target, which needs an acyclicity invariant; absence of leaks when all roots are dropped — LeakSanitizer checks it on every "
+    "run; recursion-fuel adequacy of the driver's traversal bound h.length+2), assign_spec_full (missing: a nested target survives the "
+    "release of its old content), clone_deep_full (missing: footprint theorem over later statements). "
+    "All theorems hold under the known-finding hypothesis built into the guarded statements: no operation grows a container block whose "
+    "rc > 1 (known: property=C04 key=shared-growth; generator and harness skip exactly those operations, probe prints KNOWN-FINDING). "
+    "Model-side assertions relied on and validated only by K: the extend loop refuses a property that is the target itself (the harness "
+    "guard refuses such calls first); clone is modelled by its net effect (transient rc bumps cancel); typed assignments write the new "
+    "value before releasing the old one. K-only (no theorem): toString/%.15g/%.7g formatting, atoi/atof conversions, int->float rounding, "
+    "capacity policy (3, x2, max(2s,m)) and rc values (compared through array().rc()). Doubles are exact dyadic rationals; NaN, "
+    "infinities, -0 are outside model and generator. Three defects found while building the check were repaired in /repo "
+    "(193448d, 63d8c00, 02a4aa4); witnesses in corpus/C04/fixed.ops."
+)
 TRUSTED = ["harness/c04.cpp guards: shared-growth prediction from the public array().rc()/cap()/length(), cycle prediction by a walk over "
            "array().data()/object().kv().data() block addresses; both are mirrored by the model and by the python simulation"]
 ASSUMPTIONS = [
